@@ -722,3 +722,441 @@ Proof.
       destruct (alloc_in_wf_spec a (Hcw a Hain)) as [Hpos _]. specialize (Hpos _ Hx). cbn [snd] in Hpos.
       apply negb_true_iff, Z.eqb_neq. lia.
 Qed.
+
+(* ================================================================ inventories *)
+Definition ikey (i : inv) : Z * Z := (i_rp i, i_rc i).
+
+Lemma keyb_iff i u rc : (i_rp i =? u) && (i_rc i =? rc) = true <-> ikey i = (u, rc).
+Proof.
+  unfold ikey. rewrite andb_true_iff, !Z.eqb_eq. split; [intros [-> ->]; reflexivity|intros [= -> ->]; auto].
+Qed.
+Lemma find_inv_l_Some l u rc i : find_inv_l l u rc = Some i -> In (u, rc) (map ikey l).
+Proof.
+  induction l as [|j l IH]; cbn [find_inv_l map In]; [discriminate|].
+  destruct ((i_rp j =? u) && (i_rc j =? rc)) eqn:E; [|intro H; right; exact (IH H)].
+  intros _. left. apply keyb_iff. exact E.
+Qed.
+Lemma find_inv_l_None l u rc : find_inv_l l u rc = None -> ~ In (u, rc) (map ikey l).
+Proof.
+  induction l as [|j l IH]; cbn [find_inv_l map In]; [tauto|].
+  destruct ((i_rp j =? u) && (i_rc j =? rc)) eqn:E; [discriminate|].
+  intros H [Hk|Hin]; [|exact (IH H Hin)]. apply keyb_iff in Hk. congruence.
+Qed.
+
+Lemma replace_inv_keys l n : map ikey (replace_inv l n) = map ikey l.
+Proof.
+  induction l as [|i l IH]; cbn [replace_inv map]; [reflexivity|].
+  destruct ((i_rp i =? i_rp n) && (i_rc i =? i_rc n)) eqn:E; cbn [map].
+  - apply keyb_iff in E. f_equal. symmetry. exact E.
+  - f_equal. exact IH.
+Qed.
+
+Lemma replace_inv_In l n y : NoDup (map ikey l) ->
+  (In y (replace_inv l n) <-> (y = n /\ In (ikey n) (map ikey l)) \/ (In y l /\ ikey y <> ikey n)).
+Proof.
+  induction l as [|i l IH]; intro ND; cbn [replace_inv map].
+  - split; [intros []|intros [[_ []]|[[] _]]].
+  - inversion ND as [|? ? Hni ND']; subst.
+    destruct ((i_rp i =? i_rp n) && (i_rc i =? i_rc n)) eqn:E.
+    + apply keyb_iff in E. change (ikey i = ikey n) in E. cbn [In]. split.
+      * intros [<-|Hy]; [left; split; [reflexivity|left; exact E]|].
+        right. split; [right; exact Hy|]. intro Ek. apply Hni. rewrite E, <- Ek. apply in_map. exact Hy.
+      * intros [[-> _]|[[<-|Hy] Hk]]; [left; reflexivity|contradiction (Hk E)|right; exact Hy].
+    + assert (E' : ikey i <> ikey n).
+      { intro Ek. change (ikey i = (i_rp n, i_rc n)) in Ek. apply keyb_iff in Ek. congruence. }
+      cbn [In]. rewrite (IH ND'). split.
+      * intros [<-|[[-> Hin]|[Hy Hk]]].
+        -- right. split; [left; reflexivity|exact E'].
+        -- left. split; [reflexivity|right; exact Hin].
+        -- right. split; [right; exact Hy|exact Hk].
+      * intros [[-> [Ek|Hin]]|[[<-|Hy] Hk]].
+        -- contradiction (E' Ek).
+        -- right. left. split; [reflexivity|exact Hin].
+        -- left. reflexivity.
+        -- right. right. split; assumption.
+Qed.
+
+Lemma upd_keys u : forall us d d',
+  update_inventory_for_provider d u us = Ok d' -> map ikey (invs d') = map ikey (invs d).
+Proof.
+  induction us as [|x us IH]; intros d d' H; cbn [update_inventory_for_provider] in H.
+  - injection H as <-. reflexivity.
+  - destruct (find_inv d u (ii_rc x)); [|discriminate]. apply IH in H. cbn [invs set_invs] in H.
+    rewrite H. apply replace_inv_keys.
+Qed.
+
+Lemma upd_In u : forall us d d',
+  update_inventory_for_provider d u us = Ok d' -> NoDup (map ikey (invs d)) -> NoDup (map ii_rc us) ->
+  forall y, In y (invs d') <->
+    (exists x, In x us /\ y = to_inv u x) \/
+    (In y (invs d) /\ ~ (i_rp y = u /\ In (i_rc y) (map ii_rc us))).
+Proof.
+  induction us as [|x us IH]; intros d d' H ND NDu y; cbn [update_inventory_for_provider] in H.
+  - injection H as <-. cbn [map In]. split.
+    + intro Hy. right. split; [exact Hy|tauto].
+    + intros [[? [[] _]]|[Hy _]]. exact Hy.
+  - destruct (find_inv d u (ii_rc x)) as [i0|] eqn:F; [|discriminate].
+    unfold find_inv in F. apply find_inv_l_Some in F.
+    inversion NDu as [|? ? Hnx NDu']; subst.
+    assert (NDm : NoDup (map ikey (invs (set_invs d (replace_inv (invs d) (to_inv u x)))))).
+    { cbn [invs set_invs]. rewrite replace_inv_keys. exact ND. }
+    rewrite (IH _ d' H NDm NDu' y). cbn [invs set_invs]. rewrite (replace_inv_In _ _ y ND).
+    change (ikey (to_inv u x)) with (u, ii_rc x). cbn [map In]. split.
+    + intros [[x' [Hx' ->]]|[[[-> _]|[Hy Hk]] Hnot]].
+      * left. exists x'. split; [right; exact Hx'|reflexivity].
+      * left. exists x. split; [left; reflexivity|reflexivity].
+      * right. split; [exact Hy|]. intros [Eu [Erc|Hrc]].
+        -- apply Hk. unfold ikey. congruence.
+        -- apply Hnot. split; assumption.
+    + intros [[x' [[<-|Hx'] ->]]|[Hy Hnot]].
+      * right. split; [left; split; [reflexivity|exact F]|]. intros [_ Hin]. cbn [i_rc to_inv] in Hin.
+        apply Hnx. exact Hin.
+      * left. exists x'. auto.
+      * right. split.
+        -- right. split; [exact Hy|]. intro Ek. apply Hnot. unfold ikey in Ek. injection Ek as E1 E2.
+           split; [exact E1|left; symmetry; exact E2].
+        -- intros [Eu Hin]. apply Hnot. split; [exact Eu|right; exact Hin].
+Qed.
+
+Lemma NoDup_map_pair {A} (f : A -> Z) (u : Z) l : NoDup (map f l) -> NoDup (map (fun x => (u, f x)) l).
+Proof.
+  induction l as [|x l IH]; cbn [map]; intro H; [constructor|]. inversion H; subst.
+  constructor; [|apply IH; assumption]. intro Hin. apply in_map_iff in Hin. destruct Hin as [y [[= E] Hy]].
+  apply H2. rewrite <- E. apply in_map. exact Hy.
+Qed.
+
+(* the list manipulation of _set_inventory *)
+Lemma set_inv_core (I : list inv) u l :
+  let existing := map i_rc (filter (fun i => i_rp i =? u) I) in
+  let these := map ii_rc l in
+  let to_add := filter (fun x => negb (memZ (ii_rc x) existing)) l in
+  let to_del := filter (fun rc => negb (memZ rc these)) existing in
+  let to_upd := filter (fun x => memZ (ii_rc x) existing) l in
+  let I1 := filter (fun i => negb ((i_rp i =? u) && memZ (i_rc i) to_del)) I in
+  let I2 := I1 ++ map (to_inv u) to_add in
+  NoDup (map ikey I) -> NoDup (map ii_rc l) ->
+  NoDup (map ikey I2) /\
+  (forall I3,
+     (forall y, In y I3 <-> (exists x, In x to_upd /\ y = to_inv u x) \/
+                            (In y I2 /\ ~ (i_rp y = u /\ In (i_rc y) (map ii_rc to_upd)))) ->
+     forall y, In y I3 <-> In y (map (to_inv u) l) \/ (In y I /\ i_rp y <> u)).
+Proof.
+  intros existing these to_add to_del to_upd I1 I2 ND NDl.
+  assert (Hex : forall y, In y I -> i_rp y = u -> In (i_rc y) existing).
+  { intros y Hy Eu. unfold existing. apply in_map. apply filter_In. split; [exact Hy|]. apply Z.eqb_eq. exact Eu. }
+  split.
+  - unfold I2. rewrite map_app. apply NoDup_app'.
+    + unfold I1. apply NoDup_map_filter. exact ND.
+    + rewrite map_map. change (fun x => ikey (to_inv u x)) with (fun x => (u, ii_rc x)).
+      apply NoDup_map_pair. unfold to_add. apply NoDup_map_filter. exact NDl.
+    + intros k Hk1 Hk2. apply in_map_iff in Hk1. destruct Hk1 as [i [<- Hi]].
+      rewrite map_map in Hk2. apply in_map_iff in Hk2. destruct Hk2 as [x [Ex Hx]].
+      unfold ikey in Ex. cbn [to_inv i_rp i_rc] in Ex. injection Ex as E1 E2.
+      unfold I1 in Hi. apply filter_In in Hi. destruct Hi as [Hi _].
+      unfold to_add in Hx. apply filter_In in Hx. destruct Hx as [_ Hx]. apply negb_memZ_In in Hx.
+      apply Hx. replace (ii_rc x) with (i_rc i) by congruence. apply Hex; [exact Hi|congruence].
+  - intros I3 H3 y. rewrite H3. unfold I2. rewrite in_app_iff. unfold I1. rewrite filter_In, !in_map_iff. split.
+    + intros [[x [Hx ->]]|[[[Hy Hk]|[x [<- Hx]]] Hnot]].
+      * left. exists x. split; [reflexivity|]. apply filter_In in Hx. tauto.
+      * destruct (Z.eq_dec (i_rp y) u) as [Eu|Ne]; [|right; split; assumption].
+        exfalso. apply Hnot. split; [exact Eu|].
+        pose proof (Hex y Hy Eu) as Hin. apply Z.eqb_eq in Eu. rewrite Eu, andb_true_l in Hk.
+        apply negb_memZ_In in Hk.
+        destruct (memZ (i_rc y) these) eqn:M.
+        -- apply memZ_In in M. unfold these in M. apply in_map_iff in M. destruct M as [x [Ex Hx]].
+           exists x. split; [exact Ex|]. apply filter_In. split; [exact Hx|].
+           apply memZ_In. rewrite Ex. exact Hin.
+        -- exfalso. apply Hk. apply filter_In. split; [exact Hin|]. rewrite M. reflexivity.
+      * left. exists x. split; [reflexivity|]. apply filter_In in Hx. tauto.
+    + intros [[x [<- Hx]]|[Hy Ne]].
+      * destruct (memZ (ii_rc x) existing) eqn:M.
+        -- left. exists x. split; [|reflexivity]. apply filter_In. split; assumption.
+        -- right. split.
+           ++ right. exists x. split; [reflexivity|]. apply filter_In. split; [exact Hx|]. rewrite M. reflexivity.
+           ++ intros [_ Hin]. destruct Hin as [x' [Ex' Hx']]. cbn [i_rc to_inv] in Ex'.
+              apply filter_In in Hx'. destruct Hx' as [_ Hx']. rewrite Ex' in Hx'. congruence.
+      * right. split.
+        -- left. split; [exact Hy|]. destruct (i_rp y =? u) eqn:E; [|reflexivity].
+           apply Z.eqb_eq in E. contradiction.
+        -- intros [Eu _]. contradiction.
+Qed.
+
+Lemma set_inventory_spec d u g l d' :
+  set_inventory d u g l = Ok d' -> NoDup (map ikey (invs d)) -> NoDup (map ii_rc l) ->
+  NoDup (map ikey (invs d')) /\
+  forall y, In y (invs d') <-> In y (map (to_inv u) l) \/ (In y (invs d) /\ i_rp y <> u).
+Proof.
+  unfold set_inventory, bind. cbv zeta. intros H ND NDl.
+  destruct (negb _); [discriminate|].
+  destruct (delete_inventory_from_provider _ _ _) as [d1|] eqn:E1; [|discriminate].
+  unfold delete_inventory_from_provider in E1. destruct (existsb _ _); [discriminate|]. injection E1 as <-.
+  destruct (update_inventory_for_provider _ _ _) as [d3|] eqn:E3; [|discriminate].
+  apply incr_rp_gen_fr in H. destruct H as [[_ [Hi _]] _]. rewrite Hi.
+  destruct (set_inv_core (invs d) u l ND NDl) as [C1 C2].
+  pose proof (upd_keys _ _ _ _ E3) as K3.
+  split.
+  - rewrite K3. exact C1.
+  - apply C2. apply (upd_In _ _ _ _ E3).
+    + exact C1.
+    + apply NoDup_map_filter. exact NDl.
+Qed.
+
+Lemma c04_inventory_complete :
+  forall cf d v u g l d' rs x,
+    inv_keys_nodup d -> req_wf (InvSet v u g l) = true -> step cf d (InvSet v u g l) = (d', rs) -> is_success rs ->
+    (In x (invs d') <-> (In x (map (to_inv u) l) \/ (In x (invs d) /\ i_rp x <> u))).
+Proof.
+  intros cf d v u g l d' rs x ND Hwf H Hs. revert Hs. cbn [step] in H. unfold h_inv_set in H.
+  destruct (find_rp d u) as [me|]; [|injection H as <- <-; not_success].
+  destruct (negb (g =? rp_gen me)); [injection H as <- <-; not_success|].
+  destruct (existsb (bad_capacity v) l); [injection H as <- <-; not_success|].
+  destruct (set_inventory d u (rp_gen me) l) as [dx|e] eqn:E; [|destruct e; injection H as <- <-; not_success].
+  injection H as <- <-. intros _. cbn [req_wf] in Hwf. unfold inv_list_wf in Hwf. apply andb_true_iff in Hwf. destruct Hwf as [_ Hnd].
+  apply nodupb_NoDup in Hnd. apply set_inventory_spec in E; [|exact ND|exact Hnd]. apply E.
+Qed.
+
+(* ================================================================ the unique key of inventories *)
+Definition IK (d : db) : Prop := NoDup (map ikey (invs d)).
+
+Lemma fr_keys d d' : fr d d' -> IK d -> IK d'.
+Proof. intros [_ [H _]]. unfold IK. rewrite H. auto. Qed.
+Lemma fr_aux d d' : fr d d' -> aux_same d d'.
+Proof. intros [H _]. exact H. Qed.
+
+Lemma set_inventory_keys d u g l d' :
+  set_inventory d u g l = Ok d' -> NoDup (map ii_rc l) -> IK d -> IK d'.
+Proof. intros H Hl Hk. apply (set_inventory_spec _ _ _ _ _ H Hk Hl). Qed.
+Lemma add_inventory_keys d u g x d' : add_inventory d u g x = Ok d' -> IK d -> IK d'.
+Proof.
+  unfold add_inventory. intros H Hk. destruct (negb _); [discriminate|].
+  destruct (find_inv d u (ii_rc x)) eqn:F; [discriminate|].
+  apply incr_rp_gen_fr in H. destruct H as [[_ [Hi _]] _]. unfold IK. rewrite Hi.
+  cbn [invs add_inventory_to_provider set_invs map]. rewrite map_app. apply NoDup_app'.
+  - exact Hk.
+  - cbn [map]. constructor; [intros []|constructor].
+  - intros k Hin [<-|[]]. unfold find_inv in F. apply find_inv_l_None in F. apply F. exact Hin.
+Qed.
+Lemma update_inventory_keys d u g x d' : update_inventory d u g x = Ok d' -> IK d -> IK d'.
+Proof.
+  unfold update_inventory, bind. intros H Hk. destruct (negb _); [discriminate|].
+  destruct (update_inventory_for_provider _ _ _) as [d1|] eqn:E; [|discriminate].
+  apply incr_rp_gen_fr in H. destruct H as [[_ [Hi _]] _]. unfold IK. rewrite Hi, (upd_keys _ _ _ _ E). exact Hk.
+Qed.
+Lemma delete_inventory_keys d u g rc d' : delete_inventory d u g rc = Ok d' -> IK d -> IK d'.
+Proof.
+  unfold delete_inventory, bind, delete_inventory_from_provider. intros H Hk. destruct (negb _); [discriminate|].
+  destruct (existsb _ _); [discriminate|]. destruct (find_inv d u rc); [|discriminate].
+  apply incr_rp_gen_fr in H. destruct H as [[_ [Hi _]] _]. unfold IK. rewrite Hi.
+  cbn [invs set_invs]. apply NoDup_map_filter. exact Hk.
+Qed.
+Lemma rp_delete_keys d u d' : rp_delete d u = Ok d' -> IK d -> IK d'.
+Proof.
+  unfold rp_delete. intros H Hk. brk H. injection H as <-. unfold IK. cbn. apply NoDup_map_filter. exact Hk.
+Qed.
+
+Lemma NoDup_rc_of_keys I u : NoDup (map ikey I) -> NoDup (map i_rc (filter (fun i => i_rp i =? u) I)).
+Proof.
+  induction I as [|i I IH]; cbn [map filter]; intro H; [constructor|]. inversion H; subst.
+  destruct (i_rp i =? u) eqn:E; [|apply IH; assumption]. cbn [map]. constructor; [|apply IH; assumption].
+  intro Hin. apply in_map_iff in Hin. destruct Hin as [j [Ej Hj]]. apply filter_In in Hj. destruct Hj as [Hj Eu].
+  apply H2. apply in_map_iff. exists j. split; [|exact Hj]. unfold ikey. apply Z.eqb_eq in E, Eu. congruence.
+Qed.
+
+Lemma interim_nodup d u new : IK d -> NoDup (map ii_rc new) -> NoDup (map ii_rc (interim_inv d u new)).
+Proof.
+  intros Hk Hn. unfold interim_inv. cbv zeta. rewrite map_app, map_map.
+  rewrite (map_ext _ ii_rc).
+  - rewrite !map_map. cbn [ii_rc inv_to_in]. apply NoDup_app'.
+    + apply NoDup_rc_of_keys. exact Hk.
+    + apply NoDup_map_filter. exact Hn.
+    + intros rc H1 H2. apply in_map_iff in H2. destruct H2 as [n [<- Hn']]. apply filter_In in Hn'.
+      destruct Hn' as [_ Hn']. apply negb_memZ_In in Hn'. apply Hn'. exact H1.
+  - intro e. destruct (find _ new) eqn:Ff; [|reflexivity]. apply find_some in Ff. destruct Ff as [_ Ff].
+    apply Z.eqb_eq. exact Ff.
+Qed.
+
+(* a db predicate preserved by the steps of reshape() is preserved by reshape() *)
+Section ReshapeP.
+  Variable P : db -> Prop.
+  Variable W : rinv_in -> Prop.
+  Hypothesis Hinterim : forall d r g d', P d -> W r ->
+    set_inventory d (ri_rp r) g (interim_inv d (ri_rp r) (ri_invs r)) = Ok d' -> P d'.
+  Hypothesis Hfinal : forall d r g d', P d -> W r -> set_inventory d (ri_rp r) g (ri_invs r) = Ok d' -> P d'.
+  Hypothesis Halloc : forall d l d', P d -> set_allocations d l = Ok d' -> P d'.
+
+  Lemma reshape_interim_P : forall l d x, Forall W l -> P d -> reshape_interim d l = Ok x -> P (fst x).
+  Proof.
+    induction l as [|r l IH]; intros d x HW HP H; cbn [reshape_interim] in H.
+    - injection H as <-. exact HP.
+    - inversion HW; subst. unfold bind in H. destruct (ri_invs r) eqn:Er.
+      + destruct (reshape_interim d l) as [y|] eqn:E; [|discriminate]. injection H as <-. cbn [fst].
+        eapply IH; eassumption.
+      + rewrite <- Er in H. destruct (set_inventory _ _ _ _) as [d1|] eqn:E1; [|discriminate].
+        destruct (reshape_interim d1 l) as [y|] eqn:E; [|discriminate]. injection H as <-. cbn [fst].
+        eapply IH; [eassumption| |eassumption]. eapply Hinterim; eassumption.
+  Qed.
+  Lemma reshape_final_P : forall l d gens d', Forall W l -> P d -> reshape_final d l gens = Ok d' -> P d'.
+  Proof.
+    induction l as [|r l IH]; intros d gens d' HW HP H; cbn [reshape_final] in H.
+    - injection H as <-. exact HP.
+    - inversion HW; subst. destruct gens as [|[u g] gens]; [injection H as <-; exact HP|].
+      unfold bind in H. destruct (set_inventory _ _ _ _) as [d1|] eqn:E1; [|discriminate].
+      eapply IH; [eassumption| |eassumption]. eapply Hfinal; eassumption.
+  Qed.
+  Lemma reshape_txn_P d ri objs d' : Forall W ri -> P d -> reshape_txn d ri objs = Ok d' -> P d'.
+  Proof.
+    intros HW HP H. unfold reshape_txn, bind in H.
+    destruct (reshape_interim d ri) as [[d1 gens]|] eqn:E1; [|discriminate].
+    destruct (set_allocations d1 _) as [d2|] eqn:E2; [|discriminate].
+    apply (reshape_interim_P _ _ _ HW HP) in E1. cbn [fst] in E1.
+    eapply reshape_final_P; [eassumption| |eassumption]. eapply Halloc; eassumption.
+  Qed.
+End ReshapeP.
+
+Lemma reshape_txn_aux d ri objs d' : reshape_txn d ri objs = Ok d' -> aux_same d d'.
+Proof.
+  apply (reshape_txn_P (aux_same d) (fun _ => True)).
+  - intros d0 r g d1 HP _ H. apply set_inventory_aux in H. eapply aux_same_trans; [exact HP|apply H].
+  - intros d0 r g d1 HP _ H. apply set_inventory_aux in H. eapply aux_same_trans; [exact HP|apply H].
+  - intros d0 l d1 HP H. apply set_allocations_spec in H. eapply aux_same_trans; [exact HP|apply H].
+  - apply Forall_forall. auto.
+  - apply aux_same_refl.
+Qed.
+Lemma reshape_txn_keys d ri objs d' :
+  Forall (fun r => NoDup (map ii_rc (ri_invs r))) ri -> IK d -> reshape_txn d ri objs = Ok d' -> IK d'.
+Proof.
+  apply (reshape_txn_P IK).
+  - intros d0 r g d1 HP HW H. eapply set_inventory_keys; [exact H| |exact HP]. apply interim_nodup; assumption.
+  - intros d0 r g d1 HP HW H. eapply set_inventory_keys; eassumption.
+  - intros d0 l d1 HP H. apply set_allocations_spec in H. destruct H as [_ [H _]]. unfold IK. rewrite H. exact HP.
+Qed.
+
+(* ================================================================ residue: names are only added *)
+Lemma set_inventory_aux1 d u g l d' : set_inventory d u g l = Ok d' -> aux_same d d'.
+Proof. intro H. apply set_inventory_aux in H. apply H. Qed.
+
+Lemma inspect_incl cf v : forall l d acc d1 o,
+  inspect_consumers cf v d acc l = (d1, o) -> aux_incl d d1 /\ invs d1 = invs d.
+Proof.
+  induction l as [|c l IH]; intros d acc d1 o H; cbn [inspect_consumers] in H.
+  - injection H as <- <-. split; [apply aux_incl_refl|reflexivity].
+  - destruct (ensure_consumer cf v d c) as [dx [k|]] eqn:E;
+      apply ensure_consumer_spec in E; destruct E as [[_ [Hi _]] [Ha _]].
+    + apply IH in H. destruct H as [H1 H2]. split; [eapply aux_incl_trans; eassumption|congruence].
+    + injection H as <- <-. split; [exact Ha|exact Hi].
+Qed.
+
+Lemma aux_incl_same a b c : aux_incl a b -> aux_same b c -> aux_incl a c.
+Proof. intros H1 H2. eapply aux_incl_trans; [exact H1|apply aux_same_incl; exact H2]. Qed.
+
+Lemma c04_residue :
+  forall cf d r d' rs, step cf d r = (d', rs) ->
+    incl (projects d) (projects d') /\ incl (users d) (users d') /\ incl (ctypes d) (ctypes d').
+Proof.
+  intros cf d r d' rs H. change (aux_incl d d'). destruct r; cbn [step] in H.
+  all: try (unfold h_rp_create, h_rp_update, h_rp_delete, h_inv_set, h_inv_post, h_inv_put, h_inv_delete,
+              h_inv_delete_all, h_traits_set, h_traits_delete, h_aggs_set, h_alloc_delete,
+              h_rc_rename, h_rc_create, h_rc_put, h_rc_delete, h_trait_put, h_trait_delete in H;
+            brk H; injection H as <- <-;
+            first [ apply aux_incl_refl
+                  | apply aux_same_incl;
+                    solve [eauto using fr_aux, rp_create_fr, rp_update_fr, rc_create_fr, rc_destroy_fr, rc_rename_fr,
+                      trait_create_fr, trait_destroy_fr, set_traits_txn_fr, set_aggregates_txn_fr,
+                      rp_delete_aux, add_inventory_aux, update_inventory_aux, delete_inventory_aux,
+                      set_inventory_aux1]
+                  | unfold aux_incl; cbn; repeat split; apply incl_refl ]).
+  - (* PUT /allocations/{c} *)
+    unfold h_alloc_put in H. destruct (ensure_consumer cf v d c) as [d1 [k|]] eqn:E;
+      apply ensure_consumer_spec in E; destruct E as [_ [Ha _]].
+    + destruct (alloc_objs d1 k (ci_allocs c)); [destruct (set_allocations _ _) as [d2|] eqn:Es|];
+        injection H as <- <-; try exact Ha.
+      change (aux_incl d d2). apply set_allocations_spec in Es. destruct Es as [Es _].
+      eapply aux_incl_same; [|exact Es]. eapply aux_incl_same; [exact Ha|]. apply fr_aux, update_consumer_fr.
+    + injection H as <- <-. exact Ha.
+  - (* POST /allocations *)
+    unfold h_alloc_post in H. destruct (v <? 13); [injection H as <- <-; apply aux_incl_refl|].
+    destruct (inspect_consumers cf v d [] l) as [d1 [ks|]] eqn:E; apply inspect_incl in E; destruct E as [Ha _].
+    + destruct (alloc_list d1 ks l); [destruct (set_allocations _ _) as [d2|] eqn:Es|];
+        injection H as <- <-; try exact Ha.
+      change (aux_incl d d2). apply set_allocations_spec in Es. destruct Es as [Es _].
+      eapply aux_incl_same; [|exact Es]. eapply aux_incl_same; [exact Ha|]. apply fr_aux, fold_update_consumer_fr.
+    + injection H as <- <-. exact Ha.
+  - (* POST /reshaper *)
+    unfold h_reshape in H. destruct (v <? 30); [injection H as <- <-; apply aux_incl_refl|].
+    destruct (reshape_precheck d ri); [injection H as <- <-; apply aux_incl_refl|].
+    destruct (inspect_consumers cf v d [] al) as [d1 [ks|]] eqn:E; apply inspect_incl in E; destruct E as [Ha _].
+    + destruct (alloc_list d1 ks al); [destruct (reshape_txn _ _ _) as [d2|] eqn:Es|];
+        injection H as <- <-; try exact Ha.
+      change (aux_incl d d2). apply reshape_txn_aux in Es.
+      eapply aux_incl_same; [|exact Es]. eapply aux_incl_same; [exact Ha|]. apply fr_aux, fold_update_consumer_fr.
+    + injection H as <- <-. exact Ha.
+Qed.
+
+(* ================================================================ every request keeps inventory keys unique *)
+Lemma IK_invs d d' : invs d' = invs d -> IK d -> IK d'.
+Proof. unfold IK. intros ->. auto. Qed.
+
+Lemma step_keys cf d r d' rs : req_wf r = true -> step cf d r = (d', rs) -> IK d -> IK d'.
+Proof.
+  intros Hwf H Hk. destruct r; cbn [step] in H.
+  all: try (unfold h_rp_create, h_rp_update, h_rp_delete, h_inv_post, h_inv_put, h_inv_delete,
+              h_traits_set, h_traits_delete, h_aggs_set, h_alloc_delete,
+              h_rc_rename, h_rc_create, h_rc_put, h_rc_delete, h_trait_put, h_trait_delete in H;
+            brk H; injection H as <- <-;
+            first [ exact Hk
+                  | solve [eapply fr_keys; [|exact Hk];
+                           eauto using rp_create_fr, rp_update_fr, rc_create_fr, rc_destroy_fr, rc_rename_fr,
+                             trait_create_fr, trait_destroy_fr, set_traits_txn_fr, set_aggregates_txn_fr]
+                  | solve [eauto using rp_delete_keys, add_inventory_keys, update_inventory_keys,
+                             delete_inventory_keys] ]).
+  - (* PUT inventories *)
+    cbn [req_wf] in Hwf. unfold inv_list_wf in Hwf. apply andb_true_iff in Hwf. destruct Hwf as [_ Hnd].
+    apply nodupb_NoDup in Hnd. unfold h_inv_set in H. brk H; injection H as <- <-; try exact Hk.
+    eapply set_inventory_keys; eassumption.
+  - (* DELETE inventories *)
+    unfold h_inv_delete_all in H. brk H; injection H as <- <-; try exact Hk.
+    eapply set_inventory_keys; [eassumption|constructor|exact Hk].
+  - (* PUT /allocations/{c} *)
+    unfold h_alloc_put in H. destruct (ensure_consumer cf v d c) as [d1 [k|]] eqn:E;
+      apply ensure_consumer_spec in E; destruct E as [[_ [Hi _]] _].
+    + destruct (alloc_objs d1 k (ci_allocs c)); [destruct (set_allocations _ _) as [d2|] eqn:Es|];
+        injection H as <- <-; try exact (IK_invs _ _ Hi Hk).
+      apply set_allocations_spec in Es. destruct Es as [_ [Es _]].
+      apply (IK_invs d); [|exact Hk]. cbn [invs delete_created set_consumers]. rewrite Es.
+      destruct (update_consumer_fr d1 k) as [[_ [Hu _]] _]. congruence.
+    + injection H as <- <-. exact (IK_invs _ _ Hi Hk).
+  - (* POST /allocations *)
+    unfold h_alloc_post in H. destruct (v <? 13); [injection H as <- <-; exact Hk|].
+    destruct (inspect_consumers cf v d [] l) as [d1 [ks|]] eqn:E; apply inspect_incl in E; destruct E as [_ Hi].
+    + destruct (alloc_list d1 ks l); [destruct (set_allocations _ _) as [d2|] eqn:Es|];
+        injection H as <- <-; try exact (IK_invs _ _ Hi Hk).
+      apply set_allocations_spec in Es. destruct Es as [_ [Es _]].
+      apply (IK_invs d); [|exact Hk]. cbn [invs delete_created set_consumers]. rewrite Es.
+      destruct (fold_update_consumer_fr ks d1) as [[_ [Hu _]] _]. congruence.
+    + injection H as <- <-. exact (IK_invs _ _ Hi Hk).
+  - (* POST /reshaper *)
+    cbn [req_wf] in Hwf. rewrite !andb_true_iff in Hwf. destruct Hwf as [[Hri _] _].
+    assert (HW : Forall (fun r => NoDup (map ii_rc (ri_invs r))) ri).
+    { apply Forall_forall. intros r Hr. rewrite forallb_forall in Hri. specialize (Hri r Hr).
+      unfold inv_list_wf in Hri. apply andb_true_iff in Hri. apply nodupb_NoDup. apply Hri. }
+    unfold h_reshape in H. destruct (v <? 30); [injection H as <- <-; exact Hk|].
+    destruct (reshape_precheck d ri); [injection H as <- <-; exact Hk|].
+    destruct (inspect_consumers cf v d [] al) as [d1 [ks|]] eqn:E; apply inspect_incl in E; destruct E as [_ Hi].
+    + destruct (alloc_list d1 ks al); [destruct (reshape_txn _ _ _) as [d2|] eqn:Es|];
+        injection H as <- <-; try exact (IK_invs _ _ Hi Hk).
+      change (IK d2). eapply reshape_txn_keys; [exact HW| |exact Es].
+      apply (IK_invs d); [|exact Hk]. destruct (fold_update_consumer_fr ks d1) as [[_ [Hu _]] _]. congruence.
+    + injection H as <- <-. exact (IK_invs _ _ Hi Hk).
+Qed.
+
+Lemma run_keys cf : forall l d, reqs_wf l -> IK d -> IK (run cf d l).
+Proof.
+  induction l as [|r l IH]; intros d Hwf Hk; cbn [run]; [exact Hk|].
+  inversion Hwf; subst. apply IH; [assumption|].
+  destruct (step cf d r) as [d' rs] eqn:E. cbn [fst]. eapply step_keys; eassumption.
+Qed.
+
+Lemma c04_inv_keys_reachable : forall cf d, reachable cf d -> inv_keys_nodup d.
+Proof.
+  intros cf d [l [Hwf ->]]. change (IK (run cf db0 l)). apply run_keys; [exact Hwf|]. constructor.
+Qed.
